@@ -88,7 +88,15 @@ namespace sqf
             }
 
             sqf::runtime::type type() const override { return data_type(); }
-            virtual std::size_t hash() const override { return std::hash<std::string>()(to_string_sqf()); }
+            virtual std::size_t hash() const override
+            {
+                size_t hash = 0x9e3779b9;
+                for (auto& it : m_value)
+                {
+                    hash ^= it->hash() + 0x9e3779b9 + (hash << 6) + (hash >> 2);
+                }
+                return hash;
+            }
 
             const sqf::runtime::instruction_set& value() const { return m_value; }
             void value(sqf::runtime::instruction_set flag) { m_value = flag; }
